@@ -3,6 +3,9 @@ CONSTANTS
   MaxVer = 2
   MaxNodes = 8
   FlagLateLoads = FALSE
+  MaxFail = 1
+  ClearFlags = TRUE
+  RecomputeFlags = TRUE
 SPECIFICATION Spec
 INVARIANTS NoPrematureFree NothingLeftBehind
 CHECK_DEADLOCK FALSE
